@@ -7,7 +7,7 @@ import ast
 from ..cfg import build_cfg, calls_in, node_calls
 from ..core import Ctx, property_info, rule
 from ..model import AnalysisError, FuncInfo, walk_no_nested
-from ..q import A, MUTATORS, family, expand, reach_table, cmp_atom, value_texts, passes, node_containing, leaves_at, func_text, asrc, call_name_of, control_deps, none_cond, raw_forms, return_values, is_self_attr, kwarg, root_name, stores, unparse
+from ..q import A, MUTATORS, flows, family, expand, reach_table, cmp_atom, value_texts, passes, node_containing, leaves_at, func_text, asrc, call_name_of, control_deps, none_cond, raw_forms, return_values, is_self_attr, kwarg, root_name, stores, unparse
 
 PAR = "xsdata.formats.dataclass.parsers"
 
@@ -204,6 +204,31 @@ def value_kept_as_given(ctx: Ctx) -> None:
            msg="`value` is reassigned outside the guarded conversion: the unconverted text is not what is kept on failure")
 
 
+def _derived_from(fi: FuncInfo, where: ast.AST, v: ast.expr, text: str, depth: int = 3) -> bool:
+    """Some value that can flow into ``v`` at ``where`` (through all reaching definitions, transitively through the names inside
+    constructor / call leaves) is written in terms of ``text``."""
+    g = build_cfg(fi.node)
+    n = node_containing(g, where)
+    if n is None:
+        return False
+    work = [(n, v, depth)]
+    seen: set[tuple[int, str]] = set()
+    while work:
+        at, e, d = work.pop()
+        for leaf, chain in flows(fi, at, e):
+            t = unparse(leaf)
+            if text in t:
+                return True
+            here = chain[-1] if chain else at
+            if d <= 0 or (here.id, t) in seen:
+                continue
+            seen.add((here.id, t))
+            for sub in ast.walk(leaf):
+                if isinstance(sub, ast.Name) and isinstance(sub.ctx, ast.Load) and sub is not leaf:
+                    work.append((here, sub, d - 1))
+    return False
+
+
 @rule("C10.R5")
 def flag_liveness_and_overrides(ctx: Ctx) -> None:
     """Every fail_on_* field of ParserConfig is read by a parser; candidate-trying sites force fail_on_converter_warnings=True."""
@@ -229,7 +254,8 @@ def flag_liveness_and_overrides(ctx: Ctx) -> None:
         ctx.ob(f"{q.split(':')[1]}: every candidate parser/decoder receives the strict config", strict_ok, at=fi,
                construct="strict config used", msg="the strict copy is built but not used")
         # ... and it is derived from the options in force for THIS call: nothing built from self.config is kept on the instance
-        kept = [(f, st) for f in family(ctx.repo, fi) for st, tgt, v in stores(f.node) if is_self_attr(tgt) and v is not None and "self.config" in unparse(expand(f.node, v))]
+        kept = [(f, st) for f in family(ctx.repo, fi) for st, tgt, v in stores(f.node) if is_self_attr(tgt) and v is not None
+                and ("self.config" in unparse(expand(f.node, v)) or _derived_from(f, st, v, "self.config"))]
         ctx.ob(f"{q.split(':')[1]}: the strict copy of the options is made per call (not kept on the instance)", not kept, at=kept[0][0] if kept else fi, node=kept[0][1] if kept else None,
                construct="strict config per call", msg="a parser / decoder built from self.config is memoised on the instance: options changed between calls (fail_on_unknown_properties ...) are ignored for nested candidates")
 
